@@ -1,7 +1,9 @@
 #!/bin/bash
 # runs the thorough tier of every check once (registered thorough_cmd), prints exit codes
+# usage: thorough_all.sh [seed] ["C04 C05 ..."]
 cd "$(dirname "$0")/.."
-for p in C04 C05 C06 C07 C09 C10 C11 C12 C14 C15 C16 C17 C18; do
+props=${2:-"C04 C05 C06 C07 C09 C10 C11 C12 C14 C15 C16 C17 C18"}
+for p in $props; do
   out=$(bin/check $p --tier thorough --seed ${1:-0} 2>&1); rc=$?
   echo "$p rc=$rc $(echo "$out" | grep -E 'tier=' | head -1)"
   if [ $rc -ne 0 ]; then echo "$out" | grep -E -A6 "VIOLATION|^   \{|HARNESS|Error|mismatch" | head -24; fi
